@@ -355,7 +355,7 @@ class CursorAwareWindow(BaseWindow, ContextManager["CursorAwareWindow"]):
                 r"(?P<CSI>\x1b\[|\x9b)"
                 r"(?P<row>\d+);(?P<column>\d+)R",
                 resp,
-                re.DOTALL,
+                re.DOTALL | re.ASCII,
             )
             if m:
                 row = int(m.groupdict()["row"])
